@@ -219,16 +219,97 @@ def rule_updater(rep, iu, rel):
         rep.ob('R4-updater-replaces-only-proof-columns', 'synthesiser/updater', ok, f.where, why)
 
 
+def rule_subproof_layout(rep, ex):
+    """R5: the record the explain engine keeps for a proof node cut off by the depth limit (ExplainProvenanceImpl::subproofs) is written by
+    explain() and decoded by explainSubproof(); both must agree on where the rule number and the level sit.  Reader: the arguments that
+    explainSubproof hands to explain's parameters are traced to tup[arity - K]; writer: the push_backs onto the tuple that dominate the
+    store into `subproofs` give each of explain's parameters its distance from the end.  The two maps (parameter -> distance) must agree."""
+    fe = [f for f in ex.functions if f.name == 'explain' and f.d.get('cls') == 'ExplainProvenanceImpl' and len(f.d.get('params', [])) == 5]
+    fs = [f for f in ex.functions if f.name == 'explainSubproof' and f.d.get('cls') == 'ExplainProvenanceImpl']
+    if len(fe) != 1 or len(fs) != 1:
+        rep.analysis_broken('ExplainProvenanceImpl::explain / explainSubproof not found (%d, %d)' % (len(fe), len(fs)))
+        return
+    fe, fs = fe[0], fs[0]
+    pidx = {p['did']: i for i, p in enumerate(fe.d['params'])}
+    # ---- writer
+    stores = [m for m in fe.walk() if is_call(m, ('push_back', 'emplace_back')) and call_obj(m) is not None and expr_key(call_obj(m)) == 'subproofs']
+    if len(stores) != 1:
+        rep.analysis_broken('explain: expected one store into subproofs, found %d' % len(stores))
+        return
+    st = stores[0]
+    rec = strip(call_args(st)[0], casts=True)
+    if rec['k'] != 'DeclRefExpr':
+        rep.analysis_broken('explain: the stored subproof record is not a variable')
+        return
+    anc = {a['id'] for a in fe.ancestors(st)}
+    order = {m['id']: i for i, m in enumerate(fe.walk())}
+    pushes = []
+    for m in fe.walk():
+        if is_call(m, 'push_back') and call_obj(m) is not None:
+            o = strip(call_obj(m), casts=True)
+            if o['k'] == 'DeclRefExpr' and o.get('did') == rec.get('did') and order[m['id']] < order[st['id']]:
+                # statement-level call whose enclosing compound statement encloses the store: it is executed on every path to the store
+                par = fe.parent(m)
+                while par is not None and par['k'] != 'CompoundStmt':
+                    par = fe.parent(par)
+                if par is not None and par['id'] in anc:
+                    pushes.append(m)
+                elif par is None or not kids(par) or kids(par)[-1]['k'] != 'ReturnStmt':
+                    # a push in a block that is left by falling through: the layout at the store depends on the path taken
+                    rep.analysis_broken('explain: a conditional push_back onto the subproof record precedes its store (%s)' % fe.loc(m))
+                    return
+    writer = {}
+    for dist, m in enumerate(reversed(pushes), 1):
+        a = strip(call_args(m)[0], casts=True)
+        if a['k'] == 'DeclRefExpr' and a.get('did') in pidx:
+            writer[pidx[a['did']]] = dist
+    # ---- reader
+    calls = [m for m in fs.walk() if is_call(m, 'explain')]
+    if len(calls) != 1:
+        rep.analysis_broken('explainSubproof: expected one call of explain, found %d' % len(calls))
+        return
+    reader = {}
+    args = call_args(calls[0])
+    for i, a in enumerate(args):
+        a = strip(a, casts=True)
+        if a['k'] != 'DeclRefExpr' or a.get('dk') != 'Local':
+            continue
+        defs = []
+        for m in fs.walk():
+            if m['k'] == 'BinaryOperator' and m.get('op') == '=' and strip(kids(m)[0], casts=True).get('did') == a.get('did'):
+                defs.append(kids(m)[1])
+            if m['k'] == 'VarDecl' and m.get('did') == a.get('did') and kids(m):
+                defs.append(kids(m)[0])
+        for d in defs:
+            d = strip(d, casts=True)
+            if d['k'] == 'CXXOperatorCallExpr' and d.get('op') == '[]':
+                ix = strip(kids(d)[2], casts=True)
+                if ix['k'] == 'BinaryOperator' and ix.get('op') == '-' and 'getArity' in expr_key(kids(ix)[0]):
+                    k = strip(kids(ix)[1], casts=True)
+                    if k['k'] == 'IntegerLiteral':
+                        reader[i] = int(k.get('val'))
+    rep.floor('R5-subproof-fields-read', len(reader), 2)
+    rep.floor('R5-subproof-fields-written', len(pushes), 2)
+    for i, dist in sorted(reader.items()):
+        nm = fe.d['params'][i]['name']
+        ok = writer.get(i) == dist
+        rep.ob('R5-subproof-record-layout-agrees', 'subproofs/%s' % nm, ok, fe.loc(st),
+               '' if ok else 'explainSubproof reads %s from position arity-%d of a stored subproof record, explain() stores it at distance %s from the end '
+               '(push order before the store: %s)' % (nm, dist, writer.get(i), [expr_key(call_args(m)[0]) for m in pushes]))
+
+
 def analyse(rep):
-    put, io, iu, rel = facts.extract([(PUT, r'provenance/UnitTranslator\.cpp$', r'UnitTranslator::(createRamRelation|addAuxiliaryArity)$'),
+    put, io, iu, rel, ex = facts.extract([(PUT, r'provenance/UnitTranslator\.cpp$', r'UnitTranslator::(createRamRelation|addAuxiliaryArity)$'),
                                       (TU_IO, r'souffle/io/(SerialisationStream|WriteStream[A-Za-z]*)\.h$', r'.*'),
                                       (os.path.join(facts.VERIF, 'tu', 'prov_instances.cpp'), r'interpreter/Util\.h$|prov_instances\.cpp$', r'Updater'),
-                                      (REL, r'synthesiser/Relation\.cpp$', r'generateTypeStruct')])
-    rep.add_units([put, io, iu, rel])
+                                      (REL, r'synthesiser/Relation\.cpp$', r'generateTypeStruct'),
+                                      ('src/MainDriver.cpp', r'provenance/ExplainProvenanceImpl\.h$', r'ExplainProvenanceImpl::explain')])
+    rep.add_units([put, io, iu, rel, ex])
     rule_declared(rep, put)
     rule_io(rep, io)
     rule_identity(rep, iu, rel)
     rule_updater(rep, iu, rel)
+    rule_subproof_layout(rep, ex)
 
 
 MUTANTS = [
@@ -243,6 +324,8 @@ MUTANTS = [
     ('generated-aux-comparator-over-all-columns', REL, 'genstruct(comparator_aux, ind.size() - auxiliaryArity);', 'genstruct(comparator_aux, ind.size());', 'R3'),
     ('updater-compares-rule-first', IUTIL, '        constexpr std::size_t level = Arity - 1;\n        constexpr std::size_t rule = Arity - 2;',
      '        constexpr std::size_t level = Arity - 2;\n        constexpr std::size_t rule = Arity - 1;', 'R4'),
+    ('subproof-reader-swaps-rule-and-level', 'src/include/souffle/provenance/ExplainProvenanceImpl.h',
+     '        ruleNum = tup[rel->getArity() - 2];', '        ruleNum = tup[rel->getArity() - 1];', 'R5'),
 ]
 
 
@@ -251,11 +334,12 @@ def run(tier='quick'):
     rep.explanation = ('static structural clauses for "same outputs with provenance": the two provenance columns are declared consistently (arity, auxiliary '
                        'arity, names, types, IO auxArity), excluded from IO (SerialisationStream arity, writer column loops), excluded from set identity '
                        '(weak comparator over Arity - AuxiliaryArity columns in both back-ends) and only ever replaced together by the proof-minimising updater.')
-    rep.assumptions = ['validity of proof trees / the explain engine / negation and constraints in proofs are NOT decided (run-time semantics)']
+    rep.assumptions = ['validity of proof trees / negation and constraints in proofs are NOT decided (run-time semantics); of the explain engine only the '
+                       'layout agreement of the deferred-subproof record between its writer and its reader is decided (R5)']
     try:
         analyse(rep)
         ms = [mutate.Mutant(n, f, o, w, e) for (n, f, o, w, e) in MUTANTS]
-        mutate.run_mutants(rep, 'C19', ms if tier == 'thorough' else ms[:2], analyse)
+        mutate.run_mutants(rep, 'C19', ms if tier == 'thorough' else ms[:2] + ms[-1:], analyse)
     except facts.Broken as e:
         rep.analysis_broken(str(e))
     return rep.finish()
